@@ -35,7 +35,8 @@ fn wrap(r: &mut Rng, body: &str) -> String {
 
 fn pattern(r: &mut Rng) -> String {
     match r.below(18) {
-        12 => (*r.pick(&["local t1 = { 1, a = 2 }\nprint(t1)", "print({ a = 1, 2, 3 })", "f{ 1, [2] = 3 }", "local t2 = { 1, 2 }", "local t3 = { a = 1, [\"b\"] = 2 }", "print({})"])).to_string(),
+        12 => (*r.pick(&["local n1 = { name = \"outer\", { \"first\", \"second\", size = 2 } }\nprint(n1)", "print({ 1, k = { 2, j = 3 } }, { { 1, a = 2 }, { b = 1, 2 } })",
+                         "local n2 = { a = { 1, b = 2 }, { c = 3, 4 }, 5 }", "local t1 = { 1, a = 2 }\nprint(t1)", "print({ a = 1, 2, 3 })", "f{ 1, [2] = 3 }", "local t2 = { 1, 2 }", "local t3 = { a = 1, [\"b\"] = 2 }", "print({})"])).to_string(),
         13 => (*r.pick(&["local d1 = { a = 1, a = 2 }", "local d2 = { [\"k\"] = 1, k = 2 }", "local d3 = { 1, [1] = 2 }", "local d4 = { [1] = 1, [1.0] = 2 }",
                          "local d5 = { a = 1, b = 2, [\"a b\"] = 3 }", "local d6 = { 1, 2, [3] = 3, 4 }", "local d7 = { [\"1\"] = 1, 2 }", "f{ x = 1, x = 2, x = 3 }",
                          "local d8 = { [ [[k]] ] = 1, k = 2 }", "local d9 = { [x] = 1, [x] = 2 }",
@@ -135,7 +136,53 @@ pub fn generate(seed: u64, n: usize, _thorough: bool) -> Cases {
     while i < n && attempts < 20 * n {
         attempts += 1;
         let mut r = rng.fork(attempts as u64);
-        match r.below(14) {
+        match r.below(15) {
+            14 => {
+                // (7) empty_if / empty_loop with comments_count: the generator knows which arms are empty and which hold a comment
+                const ARMS: [&str; 6] = ["", "-- c\n", "--[[ c ]]\n", "print(1)\n", "print(1) -- c\n", "-- c\nprint(1)\n"];
+                let cc = r.chance(1, 2);
+                let is_loop = r.chance(1, 3);
+                let k = if is_loop { 1 } else { r.range(1, 4) };
+                let arms: Vec<usize> = (0..k).map(|_| r.below(ARMS.len())).collect();
+                let mut src = String::new();
+                if is_loop {
+                    src.push_str(*r.pick(&["while x do\n", "for i = 1, 2 do\n", "for k in pairs(t) do\n", "repeat\n"]));
+                    src.push_str(ARMS[arms[0]]);
+                    src.push_str(if src.starts_with("repeat") { "until x\n" } else { "end\n" });
+                } else {
+                    let has_else = k > 1 && r.chance(1, 2);
+                    for (j, a) in arms.iter().enumerate() {
+                        if j == 0 {
+                            src.push_str("if x then\n");
+                        } else if has_else && j == k - 1 {
+                            src.push_str("else\n");
+                        } else {
+                            src.push_str(&format!("elseif y{j} then\n"));
+                        }
+                        src.push_str(ARMS[*a]);
+                    }
+                    src.push_str("end\n");
+                }
+                let ast = match full_moon::parse_fallible(&src, full_moon::LuaVersion::lua51()).into_result() {
+                    Ok(a) => a,
+                    Err(_) => continue,
+                };
+                let code = if is_loop { "empty_loop" } else { "empty_if" };
+                let config = format!("[config]\n{code} = {{ comments_count = {cc} }}\n");
+                let count = catch_unwind(AssertUnwindSafe(|| {
+                    let cfg: CheckerConfig<toml::value::Value> = toml::from_str(&config).unwrap();
+                    let checker: Checker<toml::value::Value> = Checker::new(cfg, StandardLibrary::from_name("lua51").unwrap()).unwrap();
+                    checker.test_on(&ast).into_iter().filter(|d| d.diagnostic.code == code).count()
+                }));
+                let count = match count {
+                    Ok(c) => c,
+                    Err(_) => continue,
+                };
+                cases.push(
+                    format!("CArms {} {} {}%nat", gbool(cc), glist(arms.iter(), |a| format!("{}%N", a)), count),
+                    json!({"kind": "comments_count", "lint": code, "source": src, "comments_count": cc, "count": count, "nontrivial": true}),
+                );
+            }
             10..=12 => {
                 // (5) the "same text" lints on whole programs
                 if !crate::c04same::same_case(&mut r, &mut cases) {
